@@ -349,6 +349,33 @@ func c06RuleSets(r *run.Run, maxLen int) {
 		})
 }
 
+// c06ExceptionSubtables: a contextual lookup whose first subtable matches without doing anything (no nested
+// lookups: the way exceptions are written) in front of a subtable that does something: the first subtable
+// that matches at a position ends the search there, whether or not it has actions.
+func c06ExceptionSubtables(r *run.Run, maxLen int) {
+	alphabet := []glyph.ID{gen.GA, gen.GB, gen.GM}
+	r.Explore(explore.Config{Name: "C06.exception-subtables", Deadline: r.PartDeadline(0.2)},
+		fmt.Sprintf("contextual lookups with two subtables of the same type, the first one without nested lookups: 3 x 3 forms (context or chained context) x %d x %d patterns, nested single substitution, on all glyph sequences of length <= %d over {A,B,M}", len(gen.Patterns), len(gen.Patterns), maxLen),
+		func(c *explore.Ctx) {
+			chained := c.Bool("chained")
+			base, typ := 0, uint16(5)
+			if chained {
+				base, typ = 3, 6
+			}
+			f1 := base + c.Choose(3, "form of the first subtable")
+			p1 := gen.Patterns[c.Choose(len(gen.Patterns), "pattern of the first subtable")]
+			f2 := base + c.Choose(3, "form of the second subtable")
+			p2 := gen.Patterns[c.Choose(len(gen.Patterns), "pattern of the second subtable")]
+			ll := gtab.LookupList{
+				gen.MakeLookup(typ, gen.Flags[0], []gtab.Subtable{gen.Context(f1, p1, nil), gen.Context(f2, p2, []gtab.SeqLookup{{SequenceIndex: 0, LookupListIndex: 1}})}),
+				gen.MakeLookup(gen.GsubSimple[0].Type, gen.Flags[0], gen.GsubSimple[0].Sub()),
+			}
+			desc := fmt.Sprintf("%s [%s] without actions || %s [%s] 1@0; 1: %s", gen.ContextForms[f1], p1.Name, gen.ContextForms[f2], p2.Name, gen.GsubSimple[0].Name)
+			c.Sample(func() any { return desc })
+			compareShaping(c, ll, nil, []gtab.LookupIndex{0}, false, alphabet, maxLen, "exception subtables", desc)
+		})
+}
+
 // c06NestedLigature: a nested ligature / multiple substitution that skips marks the parent matched as
 // ordinary input glyphs, followed (or preceded) by a second action at every sequence index: the
 // positions the parent recorded for its input glyphs have to be renumbered after glyphs were merged or
@@ -527,6 +554,7 @@ func init() {
 		c06NestedContext(r, maxLen)
 		c06ThreeLevels(r, maxLen-1)
 		c06RuleSets(r, maxLen-1)
+		c06ExceptionSubtables(r, maxLen-1)
 		c06NestedLigature(r, maxLen+1)
 		c06FlagPairs(r, maxLen-1)
 		c06Simple(r, maxLen-1)
